@@ -415,3 +415,8 @@ def kf_layered_angle_scan(case, viol):
         return True
     # ... or when the receiver is moved by a tenth of a micrometre (the root finder stepped on an isolated NaN of r(theta))
     return isinstance(nudged, list) and any(list(x) != n_ for x in nudged)
+
+
+def fx_clamped_z_uniform(case, viol):
+    d = viol["detail"]
+    return d.get("family") == "layered-exp" and viol["clause"] == "swapping / moving the endpoints keeps the number of solutions" and list(d.get("n_with_20x_finer_angle_scan") or []) == list(d.get("n", []))
